@@ -544,8 +544,8 @@ def _varint(F, rep):
         return
     sem = _varint_semantic(F, rep, w, r) if getattr(F, "cfg", "dev") == "dev" else None
     _varint_sinks(F, rep, w, r)
-    if sem is True:
-        return        # the codec is decided for every u64 by what it computes; the shape clauses below are the fallback
+    if sem is not None:
+        return        # the codec is decided (either way) for every u64 by what it computes; the shape clauses below are the fallback
     if sem is None and getattr(F, "cfg", "dev") != "dev":
         return        # other build configurations: same source, the evaluation ran on the dev facts
     _varint_shape(F, rep, w, r)
